@@ -702,7 +702,11 @@ func swLine(id string, q, add string) string {
 
 func emit(line string) {
 	hx.Printf("%s\n", line)
+	t0 := time.Now()
 	runLine(line)
+	if d := time.Since(t0); d > 5*time.Second {
+		fmt.Fprintf(os.Stderr, "slow case %.60s: %v\n", line, d)
+	}
 }
 
 func main() {
